@@ -382,8 +382,8 @@ Proof.
       destruct (X Hlt) as [X1 _]. lia.
     + apply OI_schedule_self; auto; lia.
   - (* OThrow *) simpl. intros; lia.
-  - (* OMakePassive *) intros _. apply OI_upd_other; auto.
-  - (* OMakeActive *) intros _. apply OI_upd_other; auto.
+  - (* OMakePassive *) destruct (is_list_entry _ _); auto. intros _. apply OI_upd_other; auto.
+  - (* OMakeActive *) destruct (is_list_entry _ _); auto. intros _. apply OI_upd_other; auto.
   - (* OInvalidate *)
     destruct (c_out (cfg k) && true) eqn:Hc; auto.
     destruct (n_val (node_at k g)); intros _; apply OI_emit; auto.
@@ -838,8 +838,8 @@ Proof.
     apply start_set_sch_sub; auto. apply inv_reset. intros e [].
   - replace (c_out (cfg k) && false) with false by (destruct (c_out (cfg k)); auto). auto.
   - apply (start_ok_same_core k g); [repeat split|auto].
-  - apply start_ok_upd_other; auto.
-  - apply start_ok_upd_other; auto.
+  - destruct (is_list_entry _ _); auto. apply start_ok_upd_other; auto.
+  - destruct (is_list_entry _ _); auto. apply start_ok_upd_other; auto.
   - replace (c_out (cfg k) && false) with false by (destruct (c_out (cfg k)); auto). auto.
   - auto.
 Qed.
@@ -1227,8 +1227,8 @@ Proof.
   - destruct (_ && _); auto. rewrite node_at_emit, node_at_notify. apply runs_upd; auto.
   - apply f_equal. apply node_at_schedule_node.
   - reflexivity.
-  - apply runs_upd; auto.
-  - apply runs_upd; auto.
+  - destruct (is_list_entry _ _); auto. apply runs_upd; auto.
+  - destruct (is_list_entry _ _); auto. apply runs_upd; auto.
   - destruct (_ && _); auto. destruct (n_val (node_at i g)); auto.
     rewrite node_at_emit, node_at_notify. apply runs_upd; auto.
   - reflexivity.
@@ -1237,20 +1237,43 @@ Qed.
 Lemma do_ops_runs i st os : forall opi j g, n_runs (node_at j (do_ops cfgs i st opi os g)) = n_runs (node_at j g).
 Proof. induction os as [|o r IH]; intros opi j g; simpl; auto. rewrite IH. apply do_op_runs. Qed.
 
-(* node.cpp ready_to_evaluate, as a statement about the producers' outputs *)
+(* node.cpp ready_to_evaluate, as a statement about the producers' outputs: a slot required valid has a
+   producer holding a value (for a list slot: one of its two producers), and every element of a slot in the
+   all-valid selector holds a value *)
+Lemma has_val_iff g p : has_val g p = true <-> n_val (node_at p g) <> None.
+Proof. unfold has_val. destruct (n_val (node_at p g)); split; intros; congruence. Qed.
+
+Lemma read_valid_iff g s : v_valid (read_input g s) = true <-> n_val (node_at (i_src s) g) <> None.
+Proof. unfold read_input. destruct (n_val (node_at (i_src s) g)); simpl; split; intros; congruence. Qed.
+
+Definition slot_has_value (g : gst) (s : inspec) : Prop :=
+  n_val (node_at (i_src s) g) <> None \/ exists m, i_mate s = Some m /\ n_val (node_at m g) <> None.
+
+Lemma slot_valid_iff g s : slot_valid g s = true <-> slot_has_value g s.
+Proof.
+  unfold slot_valid, slot_has_value. destruct (i_mate s) as [m|].
+  - rewrite orb_true_iff, read_valid_iff, has_val_iff. split.
+    + intros [H|H]; [left; auto|right; exists m; auto].
+    + intros [H|(m' & E & H)]; [left; auto|right; inversion E; subst; auto].
+  - rewrite read_valid_iff. split; [auto|]. intros [H|(m' & E & _)]; [auto|discriminate].
+Qed.
+
 Lemma ready_iff c g :
   ready c g = true <->
-  forall s, In s (c_ins c) -> (c_vmode c = 0 \/ i_req s = true) -> n_val (node_at (i_src s) g) <> None.
+  forall s, In s (c_ins c) ->
+    ((c_vmode c = 0 \/ i_req s = true) -> slot_has_value g s) /\
+    (i_all s = true -> n_val (node_at (i_src s) g) <> None).
 Proof.
-  unfold ready. rewrite forallb_forall. split; intros H s Hs.
-  - intros Hr. specialize (H s Hs). unfold read_input in H.
-    destruct (n_val (node_at (i_src s) g)); [discriminate|].
-    assert (Et : (c_vmode c =? 0) || i_req s = true) by (destruct Hr as [Hr|Hr]; rewrite Hr; [reflexivity|apply orb_true_r]).
-    rewrite Et in H. simpl in H. discriminate.
-  - destruct ((c_vmode c =? 0) || i_req s) eqn:E; auto.
-    assert (Hr : c_vmode c = 0 \/ i_req s = true).
-    { destruct (c_vmode c =? 0) eqn:Ev; [left; lia|right]. simpl in E. exact E. }
-    specialize (H s Hs Hr). unfold read_input. destruct (n_val (node_at (i_src s) g)); [auto|congruence].
+  unfold ready. rewrite forallb_forall. split; intros H s Hs; specialize (H s Hs).
+  - apply andb_true_iff in H. destruct H as [H1 H2]. split.
+    + intros Hr.
+      assert (Et : (c_vmode c =? 0) || i_req s = true) by (destruct Hr as [Hr|Hr]; rewrite Hr; [reflexivity|apply orb_true_r]).
+      rewrite Et in H1. apply slot_valid_iff; auto.
+    + intros Ha. rewrite Ha in H2. apply read_valid_iff; auto.
+  - destruct H as [H1 H2]. apply andb_true_iff. split.
+    + destruct ((c_vmode c =? 0) || i_req s) eqn:E; auto.
+      apply slot_valid_iff. apply H1. destruct (c_vmode c =? 0) eqn:Ev; [left; lia|right]. simpl in E. exact E.
+    + destruct (i_all s) eqn:Ea; auto. apply read_valid_iff. auto.
 Qed.
 
 (* user code of a node runs in its evaluation exactly when the node is started and its
@@ -1333,10 +1356,20 @@ Proof.
 Qed.
 
 Lemma invalid_input_blocks_user_code c g s :
-  In s (c_ins c) -> (c_vmode c = 0 \/ i_req s = true) -> n_val (node_at (i_src s) g) = None -> ready c g = false.
+  In s (c_ins c) -> (c_vmode c = 0 \/ i_req s = true) -> i_mate s = None ->
+  n_val (node_at (i_src s) g) = None -> ready c g = false.
 Proof.
-  intros Hs Hr Hn. destruct (ready c g) eqn:E; auto.
-  exfalso. apply (proj1 (ready_iff c g) E s Hs Hr). exact Hn.
+  intros Hs Hr Hm Hn. destruct (ready c g) eqn:E; auto.
+  exfalso. destruct (proj1 (ready_iff c g) E s Hs) as [H1 _].
+  destruct (H1 Hr) as [H|(m & Em & _)]; [auto|congruence].
+Qed.
+
+(* a slot in the all-valid selector blocks user code while ANY of its elements holds no value *)
+Lemma unset_element_blocks_user_code c g s :
+  In s (c_ins c) -> i_all s = true -> n_val (node_at (i_src s) g) = None -> ready c g = false.
+Proof.
+  intros Hs Ha Hn. destruct (ready c g) eqn:E; auto.
+  exfalso. destruct (proj1 (ready_iff c g) E s Hs) as [_ H2]. apply (H2 Ha). exact Hn.
 Qed.
 
 (* ------------------------------------------------------------------ *)
@@ -1363,8 +1396,8 @@ Proof.
   - destruct (_ && _); auto. rewrite node_at_emit, node_at_notify. apply node_at_upd_node_other; auto.
   - apply node_at_schedule_node.
   - reflexivity.
-  - apply node_at_upd_node_other; auto.
-  - apply node_at_upd_node_other; auto.
+  - destruct (is_list_entry _ _); auto. apply node_at_upd_node_other; auto.
+  - destruct (is_list_entry _ _); auto. apply node_at_upd_node_other; auto.
   - destruct (_ && _); auto. destruct (n_val (node_at i g)); auto.
     rewrite node_at_emit, node_at_notify. apply node_at_upd_node_other; auto.
   - reflexivity.
@@ -1409,8 +1442,8 @@ Proof.
   - destruct (_ && _); auto. rewrite node_at_emit, node_at_notify. apply U; auto.
   - apply f_equal. apply node_at_schedule_node.
   - reflexivity.
-  - apply U; auto.
-  - apply U; auto.
+  - destruct (is_list_entry _ _); [reflexivity|]. apply U; auto.
+  - destruct (is_list_entry _ _); [reflexivity|]. apply U; auto.
   - destruct (_ && _); auto. destruct (n_val (node_at i g)); auto.
     rewrite node_at_emit, node_at_notify. apply U; auto.
   - reflexivity.
@@ -1465,8 +1498,8 @@ Proof.
   - destruct (_ && _); auto. simpl. rewrite len_notify. apply len_upd_node.
   - apply len_schedule_node.
   - reflexivity.
-  - apply len_upd_node.
-  - apply len_upd_node.
+  - destruct (is_list_entry _ _); auto. apply len_upd_node.
+  - destruct (is_list_entry _ _); auto. apply len_upd_node.
   - destruct (_ && _); auto. destruct (n_val (node_at i g)); auto. simpl. rewrite len_notify. apply len_upd_node.
   - reflexivity.
 Qed.
@@ -1660,9 +1693,11 @@ Proof.
     + apply schedule_node_slot_other; auto.
     + unfold wrote. rewrite node_at_schedule_node, schedule_node_now. reflexivity.
   - repeat split; auto.
-  - (* OMakePassive *) split; [auto|]. split; [auto|]. split; [auto|left]. split; [reflexivity|].
+  - (* OMakePassive *) destruct (is_list_entry _ _); [repeat split; auto|].
+    split; [auto|]. split; [auto|]. split; [auto|left]. split; [reflexivity|].
     unfold wrote. rewrite node_at_upd_same by lia. reflexivity.
-  - split; [auto|]. split; [auto|]. split; [auto|left]. split; [reflexivity|].
+  - destruct (is_list_entry _ _); [repeat split; auto|].
+    split; [auto|]. split; [auto|]. split; [auto|left]. split; [reflexivity|].
     unfold wrote. rewrite node_at_upd_same by lia. reflexivity.
   - (* OInvalidate: with a value it notifies exactly like a write *)
     destruct (c_out _ && true) eqn:Eo; [|repeat split; auto].
@@ -1779,8 +1814,8 @@ Proof.
   - destruct (_ && _); auto. simpl. rewrite slen_notify. reflexivity.
   - apply schedule_node_len.
   - reflexivity.
-  - reflexivity.
-  - reflexivity.
+  - destruct (is_list_entry _ _); reflexivity.
+  - destruct (is_list_entry _ _); reflexivity.
   - destruct (_ && _); auto. destruct (n_val (node_at i g)); auto. simpl. rewrite slen_notify. reflexivity.
   - reflexivity.
 Qed.
@@ -1992,8 +2027,8 @@ Proof.
   - destruct (_ && _); auto. simpl. apply ne9_notify. exact H.
   - apply ne9_schedule_node; auto.
   - simpl. lia.
-  - exact H.
-  - exact H.
+  - destruct (is_list_entry _ _); exact H.
+  - destruct (is_list_entry _ _); exact H.
   - destruct (_ && _); auto. destruct (n_val (node_at i g)); auto. simpl. apply ne9_notify. exact H.
   - exact H.
 Qed.
